@@ -231,7 +231,9 @@ func c07Establish(r *ev.Run, cs c07Case, caseID string) {
 }
 
 // c07Rotation: steady bidirectional traffic across several rekeys.
-func c07Rotation(r *ev.Run, g *rng.R, caseID string, kaShort bool, b time.Duration) {
+// oneWay: -1 both sides send; 0 only A (the first initiator) sends; 1 only B sends, after A has brought the channel up with
+// WaitReady, so that A initiates every rekey without ever having sent application data.
+func c07Rotation(r *ev.Run, g *rng.R, caseID string, kaShort bool, b time.Duration, oneWay int) {
 	tm := timingsFor(b, kaShort)
 	n := newCnet(cendCfg{key: keyN(23), timings: tm}, cendCfg{key: keyN(24), timings: tm}, nil)
 	n.goPrompt()
@@ -239,6 +241,15 @@ func c07Rotation(r *ev.Run, g *rng.R, caseID string, kaShort bool, b time.Durati
 	ctx, cancel := context.WithCancel(context.Background())
 	defer cancel()
 	T := 6 * tm.RekeyAfterTime
+	if oneWay == 1 {
+		wctx, wcf := context.WithTimeout(ctx, 5*time.Second)
+		err := n.end(0).ch.WaitReady(wctx)
+		wcf()
+		if err != nil {
+			r.Inconclusive("c07 rotation: WaitReady " + caseID)
+			return
+		}
+	}
 	start := time.Now()
 	var mu sync.Mutex
 	sent := [2]int{}
@@ -246,6 +257,9 @@ func c07Rotation(r *ev.Run, g *rng.R, caseID string, kaShort bool, b time.Durati
 	var wg sync.WaitGroup
 	for dir := 0; dir < 2; dir++ {
 		dir := dir
+		if oneWay >= 0 && dir != oneWay {
+			continue
+		}
 		wg.Add(1)
 		go func() {
 			defer wg.Done()
@@ -282,7 +296,7 @@ func c07Rotation(r *ev.Run, g *rng.R, caseID string, kaShort bool, b time.Durati
 	}
 	wg.Wait()
 	r.Eval(1)
-	det := map[string]any{"keepalive_shorter_than_rekey": kaShort, "backoff_ms": b.Milliseconds(), "duration_ms": T.Milliseconds(), "rekey_ms": tm.RekeyAfterTime.Milliseconds(), "keepalive_ms": tm.KeepAliveTimeout.Milliseconds(), "sent": sent, "messages_tail": n.describeLog(40)}
+	det := map[string]any{"keepalive_shorter_than_rekey": kaShort, "one_way": oneWay, "backoff_ms": b.Milliseconds(), "duration_ms": T.Milliseconds(), "rekey_ms": tm.RekeyAfterTime.Milliseconds(), "keepalive_ms": tm.KeepAliveTimeout.Milliseconds(), "sent": sent, "messages_tail": n.describeLog(40)}
 	if failure == "inconclusive" {
 		r.Inconclusive("c07 rotation watchdog " + caseID)
 		return
@@ -323,15 +337,15 @@ func c07Rotation(r *ev.Run, g *rng.R, caseID string, kaShort bool, b time.Durati
 	// idleness: a session that keeps receiving authenticated traffic must not be torn down; the observable is the number of
 	// handshakes started: about one per RekeyAfterTime per initiating side, whatever KeepAliveTimeout is.
 	allowed := int(T/tm.RekeyAfterTime) + 3
-	if hellos[0]+hellos[1] > 2*allowed {
+	if oneWay < 0 && hellos[0]+hellos[1] > 2*allowed {
 		r.Violate("C07/torn-down-despite-traffic", caseID, fmt.Sprintf("%d distinct InitHellos (handshakes started) were emitted during %v of steady two-way traffic (rekey every %v allows about %d): sessions are torn down although they keep receiving authenticated traffic", hellos[0]+hellos[1], T, tm.RekeyAfterTime, allowed), det)
 		return
 	}
-	if got[0] == 0 || got[1] == 0 {
-		r.Violate("C07/no-flow-during-rotation", caseID, "no traffic arrived in one direction during rotation", det)
+	if (oneWay != 1 && got[1] == 0) || (oneWay != 0 && got[0] == 0) {
+		r.Violate("C07/no-flow-during-rotation", caseID, "no traffic arrived in a direction that was sending during rotation", det)
 		return
 	}
-	r.NonTrivial(fmt.Sprintf("rotation/ka%v/b%d", kaShort, b.Milliseconds()))
+	r.NonTrivial(fmt.Sprintf("rotation/ka%v/b%d/oneway%d", kaShort, b.Milliseconds(), oneWay))
 	r.Count("rotation_messages_delivered", int64(got[0]+got[1]))
 }
 
@@ -487,7 +501,7 @@ func c07Scripts(maxLen int) []string {
 }
 
 func runC07(r *ev.Run) {
-	r.Rule = "two real Channels whose Send callbacks feed the harness; phase 1 applies a script over the first k emitted messages (every string over {deliver, drop, duplicate, hold-and-swap} up to length k), crossed with the timing of the two sides' first Send and a restart of the peer after message j; phase 2 delivers promptly. Logical clock = handshake retransmissions since phase 2 began: a Send pending after K=10 of them, or pending while the network is quiet with no handshake timer armed, is a violation; then traffic must flow both ways. Rotation: steady two-way traffic over 6 rekey periods (no Send may stall, no plaintext twice, handshakes started ~ once per rekey whatever KeepAlive is). Expiry: silence longer than RejectAfter, then a Send; idle expiry: silence of 0.9..3.5 KeepAliveTimeouts with the rekey timer far away, then a Send from the earlier initiator or responder. non-trivial = script perturbed a message / both initiated / restart; distinct = (script, timing, restart point, keep-alive class)"
+	r.Rule = "two real Channels whose Send callbacks feed the harness; phase 1 applies a script over the first k emitted messages (every string over {deliver, drop, duplicate, hold-and-swap} up to length k), crossed with the timing of the two sides' first Send and a restart of the peer after message j; phase 2 delivers promptly. Logical clock = handshake retransmissions since phase 2 began: a Send pending after K=10 of them, or pending while the network is quiet with no handshake timer armed, is a violation; then traffic must flow both ways. Rotation: steady two-way traffic (and one-way traffic from either side, the other having only brought the channel up) over 6 rekey periods (no Send may stall, no plaintext twice, handshakes started ~ once per rekey whatever KeepAlive is). Expiry: silence longer than RejectAfter, then a Send; idle expiry: silence of 0.9..3.5 KeepAliveTimeouts with the rekey timer far away, then a Send from the earlier initiator or responder. non-trivial = script perturbed a message / both initiated / restart; distinct = (script, timing, restart point, keep-alive class)"
 	r.Assumptions = []string{"K=10 retransmission rounds is the 'small bounded number' of the property; timers are real (5-20 ms backoff), verdicts are on retransmission counts and quiescence, the wall-clock watchdog only yields 'inconclusive'"}
 	scripts := c07Scripts(pick(r, 4, 5))
 	timings := []string{"A", "B", "both", "BafterA"}
@@ -566,8 +580,23 @@ func runC07(r *ev.Run) {
 			wg.Add(1)
 			go func() {
 				defer wg.Done()
-				c07Rotation(r, fg, id, ka, 10*time.Millisecond)
+				c07Rotation(r, fg, id, ka, 10*time.Millisecond, -1)
 			}()
+			if !ka {
+				for ow := 0; ow < 2; ow++ {
+					ow := ow
+					idw := fmt.Sprintf("rot-%d-%d-oneway%d", r.Batch, i, ow)
+					if !r.Want(idw) {
+						continue
+					}
+					fg2 := g.Fork()
+					wg.Add(1)
+					go func() {
+						defer wg.Done()
+						c07Rotation(r, fg2, idw, false, 10*time.Millisecond, ow)
+					}()
+				}
+			}
 			for who := 0; who < 2; who++ {
 				who := who
 				idle := []int{12, 20, 9, 35}[(i+r.Batch)%4] // tenths of KeepAliveTimeout
